@@ -56,8 +56,8 @@ CLAIMS = {
  "C06": dict(text="Proved: an emitted signature is the packing of an iteration in which none of the four rejection tests fired (on z, w0-cs2, ct0, hint count) with c~ = H(mu || w1Encode(w1)). Tie: every signature returned by any entry point (incl. real-RNG hedged/randomized) is decoded by the model with the secret key and the five C06 conditions evaluated numerically; the judge is validated on model-forged signatures of a test-skipping signer.",
              note="PARTIAL: identification of the tested quantities with y = z - c s1, LowBits(Ay - c s2) (ring algebra through the NTT) is evaluated per signature, not yet a theorem.",
              tech="Lean 4 proof (control flow of the iteration) + model-side judge on emitted signatures", ref="5/C06"),
- "C08": dict(text="Proved about the checked-semantics model (overflow, out-of-range index and failed conversion are faults), for all six parameter sets (C08.verify_total, mldsa_verify_total, dil_verify_total): for every public key of PUBLICKEYBYTES bytes, every message, every context and every list of bytes of ANY length offered as a signature, verification returns a boolean: wrong lengths, rejected hint sections and the norm gate answer false before any arithmetic, and on the arithmetic path the decoder ranges, NTT bounds, Montgomery products, reductions, UseHint, w1Encode and the hashes are shown free of faults by range analysis. The honest path: every arithmetic step of key generation (C04.keygen_relation) and of an accepted signing iteration (C01) is shown to succeed. Tie: overflow-checked and wrapping builds under catch_unwind on adversarial signatures (hint counters/indices, extreme z and t1 patterns, all lengths), identical decisions, honest keygen/sign path in the checked build, samples compared with the model.",
-             note="The model's rejection samplers carry a block budget (FUEL) the Rust loops do not have; 'or the budget runs out' is the one extra outcome in the statement (probability < 2^-1000 per call). PARTIAL: a closed totality theorem for signing (all rejected iterations, nonce below the u16 bound) is not stated separately; termination is C01.",
+ "C08": dict(text="Proved about the checked-semantics model (overflow, out-of-range index and failed conversion are faults), for all six parameter sets (C08.verify_total, mldsa_verify_total, dil_verify_total): for every public key of PUBLICKEYBYTES bytes, every message, every context and every list of bytes of ANY length offered as a signature, verification returns a boolean: wrong lengths, rejected hint sections and the norm gate answer false before any arithmetic, and on the arithmetic path the decoder ranges, NTT bounds, Montgomery products, reductions, UseHint, w1Encode and the hashes are shown free of faults by range analysis. The honest path (C08.keypair_total, signature_total, sign_iteration_total): key generation from any 32-byte seed, and signing with any generated key on any message - every iteration, rejected or accepted, within the u16 nonce budget of the code - complete with no overflow in any intermediate arithmetic, keys of exactly the standard sizes. Tie: overflow-checked and wrapping builds under catch_unwind on adversarial signatures (hint counters/indices, extreme z and t1 patterns, all lengths), identical decisions, honest keygen/sign path in the checked build, samples compared with the model.",
+             note="The model's rejection samplers carry a block budget (FUEL) the Rust loops do not have; 'or the budget runs out' is the one extra outcome in the statement (probability < 2^-1000 per call). Beyond L*iterations = 2^16-1 the Rust code itself overflows its u16 nonce (the model reproduces it as a fault); that the loop ends long before is C01's (unproved) termination.",
              tech="Lean 4 proof (range analysis through decode, NTT, reductions, hints, SHAKE call shapes) + checked-build fuzz scans", ref="5/C08"),
  "C09": dict(text="Proved: the library as a machine over an RNG tape: per-operation amounts (32/32/64/0), consumption in call order over any call sequence, output = specification's function of exactly the drawn bytes. Tie (RNG tap hook): logged requests of the real code = model prediction; replaying logged bytes as a script reproduces the output; repeated draws/outputs pairwise distinct, deterministic ones identical.",
              note="That rand::thread_rng is an OS-seeded CSPRNG is trusted (rand's contract); CSPRNG quality is not modelled.",
